@@ -695,8 +695,9 @@ func (w *world) single(s dirSpec) *placement {
 		lines := []string{c}
 		switch s.Layout {
 		case "blank":
+			// the comment is still a leading comment "before the statement": an expectation (it was an
+			// observation until a seeded change showed that nothing judged it)
 			lines = []string{c, ""}
-			pl.Observe = "blank-line-between-comment-and-statement"
 		case "first-of-several":
 			// docs/linter.md: "you can put leading/trailing comments for each statements": a directive that is
 			// followed by further leading comments is still a leading comment of the statement (expectation, not observation)
@@ -722,7 +723,6 @@ func (w *world) single(s dirSpec) *placement {
 		if s.Layout == "blank" {
 			st = append(st, "")
 			en = append([]string{""}, en...)
-			pl.Observe = "blank-lines-inside-range-comments"
 		}
 		pl.Edits = []edit{{File: p.File, Line: p.First, Where: "before", Lines: st}, {File: q.File, Line: q.Last, Where: "after", Lines: en}}
 	}
